@@ -148,6 +148,11 @@ class CallFrame(MemorySegment):
         # also for debugging purposes
         self.ret_addr = ret_addr
 
+        # size of the operand stack when the statement being executed
+        # in this frame started (only tracked when the module has
+        # debug info); an error handler discards anything above it
+        self.stmt_stack_size = None
+
     def set_temp_reference(self, idx, value):
         # get a non reference value, create a temporary cell for it,
         # and then store a reference to it in the given index.
@@ -230,6 +235,15 @@ class QvmCpu:
         self.trap_target = None
         self.error_handler_active = False
         self.trapped_addr = 0
+
+        # addresses at which a statement starts; needed to know which
+        # part of the operand stack belongs to the current statement
+        # when an error is handled (ON ERROR needs debug info anyway)
+        self.stmt_starts = frozenset()
+        if self.module.debug_info is not None:
+            self.stmt_starts = frozenset(
+                stmt.start_offset
+                for stmt in self.module.debug_info.stmts)
 
         self.received_keyboard_interrupt = False
         signal.signal(signal.SIGINT, self.signal_handler)
@@ -324,6 +338,8 @@ class QvmCpu:
 
         self.prev_pc = self.pc
         instr_addr = self.pc
+        if self.pc in self.stmt_starts and self.cur_frame is not None:
+            self.cur_frame.stmt_stack_size = len(self.stack)
         instr, operands, size = self.get_current_instruction()
         self.pc += size
         if instr is None:
@@ -429,6 +445,12 @@ class QvmCpu:
 
         if not self.error_handler_active and \
            self.trap_target is not None:
+            # the failed statement is abandoned: drop the operands it
+            # has pushed so far, so that the handler and the code we
+            # resume to see the stack as it was before the statement
+            if self.cur_frame is not None and \
+               self.cur_frame.stmt_stack_size is not None:
+                del self.stack[self.cur_frame.stmt_stack_size:]
             if self.trap_target == 'next':
                 self._exec_errresn()
             else:
